@@ -1,6 +1,7 @@
 package checks
 
 import (
+	"bytes"
 	"encoding/binary"
 	"fmt"
 	"sort"
@@ -127,6 +128,28 @@ func TestC01(t *testing.T) {
 		addLabels(c, bm.labels)
 		c.Label("kind=" + bm.kind)
 		checkFraming(c, rt, bm)
+		// The bytes are what gets queued and written later: they must still be the same framed message after
+		// other messages have been encoded in the meantime (a batch, a send queue, another connection).
+		if gen.Pick(rt, "later_encodes", 3) == 0 {
+			b1, fr, _ := safeMarshal(bm.m)
+			if fr != "" || len(b1) < 8 {
+				return
+			}
+			keep := append([]byte{}, b1...)
+			for i, k := 0, 1+gen.Pick(rt, "n_later", 3); i < k; i++ {
+				g2 := gen.New(rt, drawBudget(rt))
+				m2, _ := g2.MessageOf(bm.kind)
+				if gen.Pick(rt, "other_kind", 2) == 0 {
+					m2, _, _ = g2.Message()
+				}
+				safeMarshal(m2)
+			}
+			c.Label("encoding_rechecked_after_later_encodes")
+			if !bytes.Equal(b1, keep) {
+				c.Report(rt, "C01|"+msgClass(bm)+"|encoding-changed-by-later-encode", fmt.Sprintf("the bytes returned for a %s changed while other messages were encoded: header now %x (length field %d, %d bytes), was %x",
+					bm.kind, b1[:8], binary.BigEndian.Uint16(b1[2:]), len(b1), keep[:8]), map[string]any{"kind": bm.kind, "hex": hx(keep)})
+			}
+		}
 	})
 }
 
